@@ -6,9 +6,8 @@ CONSTANTS Coef <- C3
  MaxD = 2
  MaxSteps = 3
  SubA <- A2
- SubB <- S2
+ SubB <- S1
 INVARIANT SameValueInv
-INVARIANT SameValueOp
 INVARIANT TwoEvaluators
 INVARIANT SimplifyIdempotent
 POSTCONDITION Emit
